@@ -144,7 +144,17 @@ func runC04(c *Ctx) {
 			n++
 			v := argFromEnd(s.Call, fromEnd)
 			t := T(v)
-			ok := v != nil && (IsCall("(*blockchain.Chain).LastBlock").Match(t))
+			isTip := func(x *Term) bool { return IsCall("(*blockchain.Chain).LastBlock").Match(x) }
+			ok := v != nil && isTip(t)
+			if !ok && v != nil && t.Op == "phi" && len(t.Args) > 0 {
+				// a loop variable that is re-read from the chain on every way round
+				ok = true
+				for _, a := range t.Args {
+					if !isTip(a) {
+						ok = false
+					}
+				}
+			}
 			c.Require("C04.R1 deleted-is-tip", FuncKey(s.Fn)+" ⇒ "+FuncKey(df), p.InstrPos(s.Call),
 				"block argument is the result of Chain.LastBlock()", ok, "argument: "+t.String())
 		}
@@ -383,6 +393,18 @@ func raisedAt(ff *FuncFacts, blk *ssa.BasicBlock, arg ssa.Value, stored Matcher)
 			}
 			if allOK && sawTrue {
 				return true, "flag " + f.B.String() + " is true only on edges where new > stored"
+			}
+		}
+	}
+	// inequality form:  if next != stored { publish }  where next is the value handed on as the
+	// new finalized height and is itself never below stored (monotone φ or max): then
+	// next != stored is next > stored
+	if okMono, _ := monotoneOver(ff, arg, stored); okMono {
+		at := ff.Term(arg)
+		next := Matcher{"new finalized height", func(x *Term) bool { return x.String() == at.String() }}
+		for _, f := range ff.FactsAt(blk) {
+			if f.Entails(CmpSpec{A: next, B: stored, Rel: NE, D: 0}) || f.Entails(CmpSpec{A: next, B: stored, Rel: GE, D: 1}) {
+				return true, "new finalized height (never below stored) differs from stored: " + f.String()
 			}
 		}
 	}
